@@ -2,8 +2,8 @@
     Labels are an arbitrary type with a decidable strict total order (bool, usize, String in the
     code); scores are over the real-number instance of the model, whose binary32 / binary64
     instances are the ones executed against the Rust code on every run. *)
-From Coq Require Import List NArith Reals Sorted Lra.
-From LinfaVerif Require Import Common.Num Common.NdSum Common.B32 C05.Model C05.Proofs.
+From Coq Require Import List NArith QArith Qreals Reals Sorted Lra Lia.
+From LinfaVerif Require Import Common.Num Common.NdSum Common.B32 Common.QF C05.Model C05.Corr C05.Proofs C05.AucGroups C05.OracleSound.
 Import ListNotations.
 Local Open Scope R_scope.
 
@@ -39,15 +39,29 @@ Theorem cm_cells : forall (L : Type) (lltb leqb : L -> L -> bool), label_order l
   get R_ops (cm_count R_ops leqb cs pred truth) i j = INR (count_pairs leqb (nth i cs d) (nth j cs d) pred truth).
 Proof. intros L lltb leqb [H1 H2 H3 H4] pred truth i j d cs. exact (cm_cells_top lltb leqb H1 H2 H3 H4 pred truth i j d). Qed.
 
-(** the binary32 cells the code really stores are exactly the integer counts (up to 2^18 samples,
-    checked by computation; binary32 represents every integer below 2^24) *)
+(** the binary32 cells the code really stores are exactly the integer counts as long as the count
+    of the cell is at most 2^24 - in particular whenever there are at most 2^24 samples: every
+    integer up to 2^24 is a binary32 number and adding 1.0 to it is exact (C05/F32Exact.v, from
+    Flocq's Bplus_correct).  At 2^24 the cell stops growing (F32Exact.f32_succ_saturates). *)
 Theorem cm_counts_exact_f32 : forall (L : Type) (lltb leqb : L -> L -> bool), label_order lltb leqb ->
   forall (pred truth : list L) (i j : nat) (d : L),
   let cs := classes lltb leqb pred truth in
-  (i < length cs)%nat -> (j < length cs)%nat -> (N.of_nat (length pred) <= 262144)%N ->
+  (i < length cs)%nat -> (j < length cs)%nat ->
+  (N.of_nat (count_pairs leqb (nth i cs d) (nth j cs d) pred truth) <= 16777216)%N ->
   get B32_ops (cm_count B32_ops leqb cs pred truth) i j
   = of_N B32_ops (N.of_nat (count_pairs leqb (nth i cs d) (nth j cs d) pred truth)).
 Proof. intros L lltb leqb H pred truth i j d. exact (cm_cells_f32 lltb leqb H pred truth i j d). Qed.
+
+Theorem cm_counts_exact_f32_samples : forall (L : Type) (lltb leqb : L -> L -> bool), label_order lltb leqb ->
+  forall (pred truth : list L) (i j : nat) (d : L),
+  let cs := classes lltb leqb pred truth in
+  (i < length cs)%nat -> (j < length cs)%nat -> (N.of_nat (length pred) <= 16777216)%N ->
+  get B32_ops (cm_count B32_ops leqb cs pred truth) i j
+  = of_N B32_ops (N.of_nat (count_pairs leqb (nth i cs d) (nth j cs d) pred truth)).
+Proof.
+  intros L lltb leqb H pred truth i j d cs Hi Hj Hn. apply (cm_cells_f32 lltb leqb H pred truth i j d Hi Hj).
+  subst cs. pose proof (count_pairs_le leqb (nth i (classes lltb leqb pred truth) d) (nth j (classes lltb leqb pred truth) d) pred truth). lia.
+Qed.
 
 (** the cells sum to the number of samples (in the summation order of `.sum()`) *)
 Theorem cm_sums_to_n : forall (L : Type) (lltb leqb : L -> L -> bool), label_order lltb leqb ->
@@ -109,19 +123,20 @@ Proof. exact ovo_eq. Qed.
 
 (** ** ROC curve, AUC, log-loss *)
 
-(** for scores (the non-negative ones are kept) whose distinct values are more than eps apart and
-    with both classes present, the curve starts at (0,0), ends at (1,1), is monotone, and the
-    trapezoidal area equals the Mann-Whitney statistic with ties counted one half *)
+(** with both classes present (among the non-negative scores, which are the ones kept) the curve
+    starts at (0,0), ends at (1,1) and is monotone - whatever the gaps between the scores *)
 Theorem roc_endpoints : forall (eps : R) (ps : list (R * bool)),
-  0 <= eps -> separated eps (kept ps) -> (0 < npos (kept ps))%nat -> (0 < nneg (kept ps))%nat ->
+  0 <= eps -> (0 < npos (kept ps))%nat -> (0 < nneg (kept ps))%nat ->
   hd (0, 0) (fst (roc R_ops eps ps)) = (0, 0) /\ last (fst (roc R_ops eps ps)) (0, 0) = (1, 1).
-Proof. exact roc_endpoints_raw. Qed.
+Proof. exact roc_endpoints_free. Qed.
 
 Theorem roc_monotone : forall (eps : R) (ps : list (R * bool)),
-  0 <= eps -> separated eps (kept ps) -> (0 < npos (kept ps))%nat -> (0 < nneg (kept ps))%nat ->
+  0 <= eps -> (0 < npos (kept ps))%nat -> (0 < nneg (kept ps))%nat ->
   StronglySorted (fun p q => fst p <= fst q /\ snd p <= snd q) (fst (roc R_ops eps ps)).
-Proof. exact roc_monotone_R. Qed.
+Proof. exact roc_monotone_free. Qed.
 
+(** for scores whose distinct values are more than eps apart the trapezoidal area equals the
+    Mann-Whitney statistic with ties counted one half *)
 Theorem auc_is_mann_whitney : forall (eps : R) (ps : list (R * bool)),
   0 <= eps -> separated eps (kept ps) -> (0 < npos (kept ps))%nat -> (0 < nneg (kept ps))%nat ->
   auc R_ops eps ps
@@ -130,6 +145,52 @@ Proof.
   intros eps ps H1 H2 H3 H4. rewrite (auc_mann_whitney eps ps H1 H2 H3 H4).
   unfold auc_spec. rewrite !ofn_R. unfold two. simpl. reflexivity.
 Qed.
+
+(** without the separation hypothesis.  The loop opens a new step when the current score is more than
+    eps away from the score that opened the current step, so the sorted non-negative scores fall
+    into groups anchored at their first score; [grouped eps ps] (= Model.grouped_sc: filter, sort,
+    replace every score by the anchor of its group) has the labels of the sorted scores, every score
+    moved down by at most eps onto a score of the input, and is sorted and separated.  The area is
+    the Mann-Whitney statistic of the grouped scores: two scores of one group count as tied, whatever
+    their exact order.  On separated inputs the grouping does nothing. *)
+Theorem auc_grouped_mann_whitney : forall (eps : R) (ps : list (R * bool)),
+  0 <= eps -> (0 < npos (kept ps))%nat -> (0 < nneg (kept ps))%nat ->
+  auc R_ops eps ps
+  = INR (mw2 R_ops (grouped eps ps)) / (2 * (INR (npos (kept ps)) * INR (nneg (kept ps)))).
+Proof.
+  intros eps ps H1 H3 H4. rewrite (auc_grouped eps ps H1 H3 H4).
+  pose proof (sort_sc_perm (kept ps)) as Hp.
+  unfold auc_spec. rewrite !ofn_R. rewrite grouped_unfold at 2 3. rewrite npos_snap, nneg_snap.
+  rewrite (npos_perm _ _ Hp), (nneg_perm _ _ Hp). unfold two. simpl. reflexivity.
+Qed.
+
+Theorem grouped_characterisation : forall (eps : R) (ps : list (R * bool)), 0 <= eps ->
+  let l := sort_sc R_ops (kept ps) in
+  Permutation.Permutation l (kept ps) /\ sorted_sc l /\
+  grouped eps ps = snap_sc R_ops eps None l /\
+  Forall2 (near eps) l (grouped eps ps) /\
+  sorted_sc (grouped eps ps) /\ separated eps (grouped eps ps) /\
+  (separated eps (kept ps) -> grouped eps ps = l).
+Proof.
+  intros eps ps He l. pose proof (sort_sc_perm (kept ps)) as Hp. pose proof (sort_sc_sorted (kept ps)) as Hs.
+  destruct (snap_sorted_separated eps He l Hs) as [S1 S2].
+  repeat split; auto.
+  - exact (snap_near_top eps He l Hs).
+  - intros Hsep. apply (snap_separated_id eps l He Hs). exact (separated_perm eps _ _ (Permutation.Permutation_sym Hp) Hsep).
+Qed.
+
+(** grouping is not exact ties: two scores 0.05 apart with eps = 0.1 give 1/2 where the exact
+    Mann-Whitney statistic is 1; and groups are anchored, not chained: in 0, 0.06, 0.12 the last
+    score is within eps of its predecessor but opens a new group *)
+Example auc_grouping_differs_from_ties :
+  auc R_ops (1/10) [(1/2, false); (11/20, true)] = 1 / 2 /\
+  auc_spec R_ops (kept [(1/2, false); (11/20, true)]) = 1.
+Proof. exact ex_grouping_differs_from_ties. Qed.
+
+Example auc_groups_are_anchored :
+  grouped (1/10) [(0, false); (3/50, false); (3/25, true)] = [(0, false); (0, false); (3/25, true)] /\
+  Rabs (3/25 - 3/50) <= 1/10.
+Proof. exact ex_groups_are_anchored. Qed.
 
 (** log-loss is the mean of -ln of the clipped probability of the true class *)
 Theorem log_loss_def : forall (ln : R -> R) (feps : R) (ps : list (R * bool)), ps <> [] ->
@@ -188,7 +249,7 @@ Theorem median_absolute_error_def : forall (a b : list R) (v : R), median_absolu
   exists e, Permutation.Permutation e (map Rabs (vsub R_ops a b)) /\ StronglySorted Rle e /\
     v = if Nat.even (length e) then (nth (Nat.div (length e) 2 - 1) e 0 + nth (Nat.div (length e) 2) e 0) / 2
         else nth (Nat.div (length e) 2) e 0.
-Proof. exact median_spec. Qed.
+Proof. exact Proofs.median_spec. Qed.
 
 (** ** One permutation applied to predictions and truths together changes no score.
     The two vectors are given as the list of their (prediction, truth) pairs. *)
@@ -251,4 +312,58 @@ Theorem pearson_def : forall (X : list (list R)) (p : nat),
   flat_map (fun i => map (fun j => pearson_pair_spec R_ops (xcol R_ops X i) (xcol R_ops X j)) (seq (S i) (p - S i))) (seq 0 p).
 Proof. exact pearson_top. Qed.
 
-(** ** OPEN: cm_counts_exact_f32 beyond 2^18 samples (true up to 2^24; the proof above is by computation). *)
+(** ** Soundness of the Coq-evaluated oracle (C05/Corr.v): an accepted case is a proof of the property
+    for that input.  [oracle_X c = 0] is what every run evaluates by vm_compute on the outputs the
+    implementation produced; the conclusions are over R, on the real values of the float data. *)
+
+(** confusion matrix: the reported members are the classes of the two label vectors (sorted union,
+    reversed when binary), the matrix is square over them, every binary32 cell denotes exactly the
+    number of samples predicted as class i whose truth is class j, and the reported accuracy is the
+    fraction of equal labels up to 2^-18 (relative) + 1e-12 *)
+Theorem oracle_cm_sound : forall c : cmcase, oracle_cm c = 0%N -> cm_ok c = true ->
+  let ms := cm_members c in
+  let n := length (cm_pred c) in
+  n = length (cm_truth c) /\
+  ms = classes N.ltb N.eqb (cm_pred c) (cm_truth c) /\
+  length (cellsQ c) = length ms /\ Forall (fun r => length r = length ms) (cellsQ c) /\
+  (forall i j, (i < length ms)%nat -> (j < length ms)%nat ->
+     exists q, getq (cellsQ c) i j = Some q /\
+       Q2R q = INR (count_pairs N.eqb (nth i ms 0%N) (nth j ms 0%N) (cm_pred c) (cm_truth c))) /\
+  (n <> O -> within (SF2Q (b32_of_bits (cm_accuracy c))) (Q2R tol32) (Q2R (1 # 1000000000000))
+                    (INR (count_eq N.eqb (cm_pred c) (cm_truth c)) / INR n)).
+Proof. exact cm_sound. Qed.
+
+(** area under the curve, without a separation hypothesis: the real-arithmetic model value A on the
+    real values of the scores is the Mann-Whitney statistic of the grouped scores, and the reported
+    binary32 area is within (n + 8) 2^-24 |A| + 1e-12 of it.  [auc_checked]: all scores finite, both
+    classes present, and every binary32 grouping decision of the loop agrees with the exact one. *)
+Theorem oracle_roc_auc_sound : forall c : roccase, oracle_roc c = 0%N -> auc_checked c = true ->
+  let A := auc R_ops eps_rocR (rscores c) in
+  A = INR (mw2 R_ops (grouped eps_rocR (rscores c)))
+      / (2 * (INR (npos (kept (rscores c))) * INR (nneg (kept (rscores c))))) /\
+  exists v, SF2Q (b32_of_bits (rc_auc c)) = Some v /\
+    Rabs (Q2R v - A) <= Q2R (auc_tol c) * Rabs A + Q2R (1 # 1000000000000).
+Proof. intros c H. apply auc_sound. apply oracle_roc_auc_ok. exact H. Qed.
+
+(** regression scores on well-conditioned data (rg_oracle): each reported binary64 score is within
+    the stated tolerance of the textbook formula over R on the real values a, b of the inputs;
+    max_error / median_absolute_error against the real-arithmetic model value, which
+    max_error_def / median_absolute_error_def characterise *)
+Theorem oracle_reg_sound : forall c : regcase,
+  oracle_reg c = 0%N -> rg_oracle c = true -> rg_a c <> [] -> rg_b c <> [] ->
+  let a := map Q2R (qs (rg_a c)) in let b := map Q2R (qs (rg_b c)) in
+  let rt := Q2R tol64 * (1 + Rabs (sse_spec R_ops a b / (sst_spec R_ops b + c10R))) in
+  (exists M, max_error R_ops a b = Some M /\ within (f64_to_Q (outn c 0)) (Q2R tol64) 0 M) /\
+  within (f64_to_Q (outn c 1)) (Q2R tol64) 0 (mae_spec R_ops a b) /\
+  within (f64_to_Q (outn c 2)) (Q2R tol64) 0 (mse_spec R_ops a b) /\
+  (exists M, median_absolute_error R_ops a b = Some M /\ within (f64_to_Q (outn c 3)) (Q2R tol64) 0 M) /\
+  within (f64_to_Q (outn c 5)) 0 rt (r2_spec R_ops c10R a b) /\
+  within (f64_to_Q (outn c 6)) 0 rt (ev_spec R_ops c10R a b).
+Proof. exact reg_sound. Qed.
+
+(** the three soundness theorems are not vacuous: cases of a harness run satisfy their hypotheses *)
+Example oracle_soundness_hypotheses_satisfiable :
+  (oracle_cm ex_cm = 0%N /\ cm_ok ex_cm = true) /\
+  (oracle_roc ex_roc = 0%N /\ auc_checked ex_roc = true) /\
+  (oracle_reg ex_reg = 0%N /\ rg_oracle ex_reg = true /\ rg_a ex_reg <> [] /\ rg_b ex_reg <> []).
+Proof. exact (conj ex_cm_accepted (conj ex_roc_accepted ex_reg_accepted)). Qed.
